@@ -165,6 +165,28 @@ def decode_equivalence(ctx: Ctx, h, d1, d2):
     ctx.decide(bad is None, "R9.dec", site, f"{len(streams)} packets reaching every container", bad or "")
 
 
+def other_order(ctx: Ctx):
+    """The same definition with its containers listed leaf-first (SCI_HI before its parent SCI, users before COMMON): the
+    written document loads to a consistent graph (inheritor lists complete) that decodes like the base order."""
+    from .c17 import graph_consistency
+    prog = ctx.prog
+    h = X.harness(prog)
+    site = f"{DEF}::XtcePacketDefinition::kitchen-sink listed leaf-first"
+    try:
+        d = X.build_kitchen_sink(h)
+        c = d.attrs["containers"]
+        order = ["SCI_HI", "TXT", "SCI", "COMMON", "CCSDSPacket"]
+        d.attrs["containers"] = {k: c[k] for k in order}
+        g = X.write_tree(h, d)
+        d1 = X.load(h, g, "xtce")
+    except Raised as r:
+        ctx.refuted("R9.ord", site, f"write/load of the leaf-first definition raises {r.exc.tname}: {r.exc.args}")
+        return
+    bad = graph_consistency(ctx, d1, site)
+    ctx.decide(bad is None, "R9.ord", site, "consistent graph, complete inheritor lists",
+               f"the definition written with its containers listed leaf-first re-loads inconsistently: {bad}")
+
+
 def check(ctx: Ctx) -> None:
     r = ctx.guard("R9.rt", DEF, round_trip, ctx, "kitchen-sink", X.build_kitchen_sink)
     if r:
@@ -172,6 +194,7 @@ def check(ctx: Ctx) -> None:
         ctx.guard("R9.cov", DEF, coverage, ctx, d)
         ctx.guard("R9.dec", DEF, decode_equivalence, ctx, h, d1, d2)
     ctx.guard("R9.rt", DEF, round_trip, ctx, "all-defaults", lambda h: h.ev(X.minimal_src(), DEF))
+    ctx.guard("R9.ord", DEF, other_order, ctx)
 
 
 def mutants(prog):
